@@ -24,6 +24,12 @@ CLAIMED = {
   text="Decides, for every receiver value at once (all list lengths, all text/extension lengths up to 65532 bytes): DET - MarshalSize/Header/Len are effect-free and Marshal never modifies its receiver copy (so MarshalSize() denotes one value MS); ALN - T.MarshalSize evaluated on an unconstrained receiver is entailed to be a multiple of 4 at every return; LEN - at every nil-error return of T.Marshal, len(result) = MS is entailed, MS coming both from the calls inside Marshal and from re-evaluating MarshalSize in the return state; HDR - the value written to the header length field satisfies 4*(Length+1) = len(result); CNT - for SR/RR/SDES/BYE the count field equals the list length (no uint8 wrap can survive the guards); ACC - Header() and Len() re-evaluated in the return state agree with the header written and with len(result); XR - wireSize reads structure only, fixed parts of every report block are multiples of 4 and element sizes are checked (three block types with 1- or 2-byte elements are open findings F14a-c); SUM/CAT - CompoundPacket.MarshalSize and rtcp.Marshal fold every member. Level other, not proof: the size domain is cut at 65532 bytes, the placement of the header bytes is a syntactic flow rule, version/PT/FMT are left to C07-SELF.",
   note="Trusted: go/ssa, checker/num, checker/effects, models of binary/copy/append/make, reflect's Type.Size/NumField/Len being structural. TransportLayerCC and RawPacket headers are caller-supplied (only LEN/ALN resp. LEN decided). Engine undecided = failure.",
   design="DESIGN.md §2 C05"),
+ "C08": dict(
+  level="other",
+  technique="static analysis: abstract interpretation of go/ssa (linear constraints, exact fixed-width wrap-around) of every encoder with per-call-string narrowing obligations and an error-discipline rule",
+  text="Decides two structural clauses for every value at once: NARROW - every fixed-width operation in the universe of the 15 packet Marshal methods and of every helper encoder (each analysed as a root with an unconstrained receiver) that can lose information (conversion to a narrower integer, wrapping fixed-width arithmetic, low-bit mask) is shown not to lose any on a path that returns a nil error: the operand is entailed to fit at the operation, or it is a byte extraction whose dropped bits are emitted by a sibling conversion, or its pre-operation value (ghost) is entailed to fit at every success return (a later guard rejected the rest); ERR - in every function of that universe, at each return with a nil error the error of every call it made is entailed nil, so no encoder error is dropped and a packet-level success implies success of every helper. 14 sites where a bounded field is deliberately cut to its width are open findings F15a-n. Level other: float-derived values (REMB mantissa) and OR-overlap of bit fields are not covered, and 'accepted exactly at the limit' is not decided.",
+  note="Trusted: go/ssa, checker/num, checker/effects (purity of opaque helpers, determinism of size functions), frozen tables c08SignedWire (1 entry) and c08Triaged (6 entries, each with a reason and required to match a site). Size-domain assumption as in C05.",
+  design="DESIGN.md §2 C08"),
  "C18": dict(
   level="other",
   technique="static analysis: flow-insensitive alias/effect (write-set) analysis over go/ssa with summaries over the VTA call graph",
